@@ -50,13 +50,13 @@ def make(rng, w, dst):
     return r
 
 
-def _make(rng, w, dst):
+def _make(rng, w, dst, inner=False):
     m = sim.install()
     ep = w.ep[dst]
     t = ep.t
     other = "B" if dst == "A" else "A"
     tag = t._local_verification_tag
-    if rng.random() < 0.08:
+    if not inner and rng.random() < 0.08:
         tag = rng.choice([0, tag ^ 1, rng.randrange(2**32)])
     last = t._last_received_tsn if t._last_received_tsn is not None else rng.randrange(2**32)
     sacked = t._last_sacked_tsn
@@ -234,7 +234,7 @@ def _make(rng, w, dst):
     elif kind == 19:   # bundle of several hostile chunks
         parts = []
         for _ in range(rng.choice([2, 3])):
-            d, fg = _make(rng, w, dst)
+            d, fg = _make(rng, w, dst, inner=True)
             if d and len(d) > 12:
                 parts.append(d[12:])
                 forging = forging or fg
